@@ -324,6 +324,10 @@ let do_flow id ins outs =
        let sp = c12_ok (local_ = "1") (bogus = "1") tbl addr_listed q (z_of_int (int_of_string calls)) in
        if not sp then verdict "flow" id "spec:C12" tag (Printf.sprintf "impl=[%s] model=[%s]" got expect)
        else if got = expect then verdict "flow" id "ok" tag ""
+       else if tag = "local" then
+         (* a name listed in the hosts file is answered with exactly its listed addresses of the asked family
+            (names for PTR): the answer is determined by the file *)
+         verdict "flow" id "spec:C12" tag (Printf.sprintf "answer [%s] is not the one the hosts file determines [%s]" got expect)
        else verdict "flow" id "diff" tag (Printf.sprintf "impl=[%s] model=[%s]" got expect)
      | _ -> verdict "flow" id "diff" "model-parse" "")
   | _ -> verdict "flow" id "diff" "malformed-line" ""
